@@ -273,6 +273,13 @@ def _mutations(doc):
         for k, t in enumerate(s.get('transitions') or []):
             add('target-unknown', i,
                 lambda d, ss, x, k=k: x['transitions'][k].__setitem__('target', 'no such state'))
+            if t.get('target') is not None:
+                # a target that differs from an existing name only by surrounding whitespace,
+                # and an empty target, are unknown targets
+                add('target-padded', i, lambda d, ss, x, k=k: x['transitions'][k].__setitem__(
+                    'target', ' %s' % x['transitions'][k]['target']))
+                add('target-empty', i,
+                    lambda d, ss, x, k=k: x['transitions'][k].__setitem__('target', ''))
             add('key-transition', i,
                 lambda d, ss, x, k=k: x['transitions'][k].__setitem__('trigger', 'e'))
             add('prio-medium', i,
@@ -319,7 +326,8 @@ def strategy(tier):
         # coercion variants: names written as unquoted ints / booleans (coerced to str on import)
         coerce = {}
         if draw(st.floats(0, 1)) < 0.4:
-            pool = draw(st.lists(st.sampled_from([1, 2, 3, 10, True, False, 1.5, '1', '2', 'True']),
+            pool = draw(st.lists(st.sampled_from([1, 2, 3, 10, True, False, 1.5, '1', '2', 'True', ' pad', 'pad ',
+                                                  ' both ', 'in ner']),
                                  min_size=1, max_size=3, unique_by=lambda v: (type(v).__name__, v)))
             pool = pool[:len(spec['states'])]
             targets = draw(st.lists(st.sampled_from([s['name'] for s in spec['states']]),
